@@ -9,6 +9,10 @@ flush loop (`for i in range(50):` of SessionCache.flush), in source order, desce
   clearQueryResults  cache.query_results.clear()
   write              a call of remove_m2m / _save_ / add_m2m
   afterHooks         cache.call_after_save_hooks()
+  queryPath          Database._exec_sql: calls of prepare_connection_for_query_execution / provider.execute in source order
+  prepareFlushTests  tests of the `if ..: cache.flush()` statements of prepare_connection_for_query_execution
+`Props/C10.lean` (part 5, C10_bridge_query_flushes_first) states that every ORM statement is prepared before it is executed and that the
+preparation flushes exactly when `not cache.noflush_counter and cache.modified` - what `runQuery` of the session model assumes.
 `Props/C10.lean` (part 4) proves over `flushEvents` that no entry computed before a write survives the flush; a change of the
 order in the source changes the generated list and breaks those theorems on the next run (fail closed: if the loop or the clear
 is not found the list lacks the event and the theorems fail as well).
@@ -65,7 +69,29 @@ def analyse(repo):
         for n in ast.walk(st):
             if id(n) in inside or not isinstance(n, ast.Expr): continue
             tmp = []; call_events(n, tmp); outside += tmp
-    return {'flushEvents': out, 'outsideLoop': outside}
+    # ---- the path of every ORM query: Database._exec_sql = prepare_connection_for_query_execution (which flushes a modified session),
+    #      then provider.execute
+    ex = None; pc = None
+    for node in tree.body:
+        if isinstance(node, ast.ClassDef) and node.name == 'Database':
+            for f in node.body:
+                if isinstance(f, ast.FunctionDef) and f.name == '_exec_sql': ex = f
+        if isinstance(node, ast.ClassDef) and node.name == 'SessionCache':
+            for f in node.body:
+                if isinstance(f, ast.FunctionDef) and f.name == 'prepare_connection_for_query_execution': pc = f
+    if ex is None or pc is None: raise LookupError('Database._exec_sql / SessionCache.prepare_connection_for_query_execution not found')
+    calls = [c for c in ast.walk(ex) if isinstance(c, ast.Call) and isinstance(c.func, ast.Attribute)]
+    calls.sort(key=lambda c: (c.lineno, c.col_offset))
+    path = ['prepare' if c.func.attr == 'prepare_connection_for_query_execution' else 'execute'
+            for c in calls if c.func.attr == 'prepare_connection_for_query_execution' or (c.func.attr == 'execute' and ast.unparse(c.func.value) == 'provider')]
+    # the top-level statements of prepare_connection_for_query_execution that call cache.flush(): test and position relative to `return`
+    flush_tests = []
+    returned = False
+    for st in pc.body:
+        if isinstance(st, ast.Return): returned = True
+        if isinstance(st, ast.If) and not returned and [ast.unparse(x) for x in st.body] == ['cache.flush()'] and not st.orelse:
+            flush_tests.append(ast.unparse(st.test))
+    return {'flushEvents': out, 'outsideLoop': outside, 'queryPath': path, 'prepareFlushTests': flush_tests}
 
 
 def render(f):
@@ -76,7 +102,13 @@ def render(f):
             'inductive FlushEv where\n  | hooks | clearQueryResults | write | afterHooks\nderiving DecidableEq, Repr\n'
             'def flushEvents : List FlushEv := %s\n'
             'def outsideLoop : List FlushEv := %s\n'
-            'end PonyVerif.Gen.FlushQueryCache\n') % (lst(f['flushEvents']), lst(f['outsideLoop']))
+            '/-- Database._exec_sql: the calls of prepare_connection_for_query_execution / provider.execute in source order -/\n'
+            'inductive QueryEv where\n  | prepare | execute\nderiving DecidableEq, Repr\n'
+            'def queryPath : List QueryEv := %s\n'
+            '/-- tests of the top-level `if ..: cache.flush()` statements of prepare_connection_for_query_execution (before its return) -/\n'
+            'def prepareFlushTests : List String := [%s]\n'
+            'end PonyVerif.Gen.FlushQueryCache\n') % (lst(f['flushEvents']), lst(f['outsideLoop']), lst(f['queryPath']),
+                                                     ', '.join(json.dumps(t) for t in f['prepareFlushTests']))
 
 
 def regenerate(repo, lean_dir):
